@@ -240,6 +240,8 @@ class Pipeline(object):
             self._state = PipelineState.stopping
             self._producer.stop()
             self._kill_workers()
+            # The processing loop may be parked on the event while paused
+            self._unpaused_event.set()
 
     @asyncio.coroutine
     def _run_producer_wrapper(self):
